@@ -93,10 +93,17 @@ package snaps
 //@   ensures held[s.Mutex] == 0
 
 // ---- snapshot location (C11) ---------------------------------------------------------------
+// baseCaller against an abstract stack: frames are numbered relative to baseCaller (assumed contract of
+// runtime.Caller/FuncForPC); baseCaller(3) is what it reports for the depth used by snapshotPath.
+//@ specfun stopPrev(j Int) Bool = !frameOK(j) || pcFunc(framePC(j)) == nil || rtFuncName(pcFunc(framePC(j))) == "testing.tRunner"
+//@ specfun stopHere(j Int) Bool = suffixof("_test.go", baseOf(frameFile(j)))
 //@ func baseCaller(skip) returns (r)
-//@   nobody
+//@   mode str
+//@   pure
 //@   assigns nothing
-//@   ensures skip == 3 ==> r == callerFile()
+//@   ensures [first_test_frame] exists j Int: j > skip && (forall k in skip + 1..j: !stopPrev(k) && !stopHere(k))
+//@           && ((stopPrev(j) && r == (j == skip + 1 ? "" : frameFile(j - 1))) || (!stopPrev(j) && stopHere(j) && r == frameFile(j)))
+//@   loop 1 invariant i >= skip + 1 && (forall k in skip + 1..i: !stopPrev(k) && !stopHere(k)) && file == (i == skip + 1 ? "" : frameFile(i - 1))
 //@
 //@ func constructFilename(c, callerFilename, tName, isStandalone) returns (r)
 //@   mode str
@@ -108,7 +115,7 @@ package snaps
 //@   mode str
 //@   requires c != nil
 //@   assigns nothing
-//@   ensures snapPath == snapPathSpec(c.snapsDir, c.filename, c.extension, tName, isStandalone, isTrimBathBuild, callerFile())
+//@   ensures snapPath == snapPathSpec(c.snapsDir, c.filename, c.extension, tName, isStandalone, isTrimBathBuild, baseCaller(3))
 
 // ---- storage (verified in mode lines; used by the match* bodies through these postconditions) ----
 //@ func getPrevSnapshot(testID, snapPath) returns (snap, line, err)
@@ -471,7 +478,7 @@ package snaps
 //@   requires testsRegistry != nil && testsRegistry.running != nil && testsRegistry.cleanup != nil && testsRegistry.running != testsRegistry.cleanup
 //@   requires held[testsRegistry.Mutex] == 0
 //@   requires testsRegistry.Mutex != testEvents.Mutex && testsRegistry.Mutex != _m && testEvents.Mutex != _m
-//@   let sp = snapPathSpec(c.snapsDir, c.filename, c.extension, tname(t), false, isTrimBathBuild, callerFile())
+//@   let sp = snapPathSpec(c.snapsDir, c.filename, c.extension, tname(t), false, isTrimBathBuild, baseCaller(3))
 //@   requires has(testsRegistry.running, sp) == has(testsRegistry.cleanup, sp)
 //@   requires has(testsRegistry.running, sp) ==> testsRegistry.running[sp] != nil && testsRegistry.cleanup[sp] != nil && testsRegistry.running[sp] != testsRegistry.cleanup[sp]
 //@   requires fsguard[sp] == _m
@@ -538,7 +545,7 @@ package snaps
 //@   requires testsRegistry != nil && testsRegistry.running != nil && testsRegistry.cleanup != nil && testsRegistry.running != testsRegistry.cleanup
 //@   requires held[testsRegistry.Mutex] == 0
 //@   requires testsRegistry.Mutex != testEvents.Mutex && testsRegistry.Mutex != _m && testEvents.Mutex != _m
-//@   let sp = snapPathSpec(c.snapsDir, c.filename, c.extension, tname(t), false, isTrimBathBuild, callerFile())
+//@   let sp = snapPathSpec(c.snapsDir, c.filename, c.extension, tname(t), false, isTrimBathBuild, baseCaller(3))
 //@   requires has(testsRegistry.running, sp) == has(testsRegistry.cleanup, sp)
 //@   requires has(testsRegistry.running, sp) ==> testsRegistry.running[sp] != nil && testsRegistry.cleanup[sp] != nil && testsRegistry.running[sp] != testsRegistry.cleanup[sp]
 //@   requires fsguard[sp] == _m
@@ -610,7 +617,7 @@ package snaps
 //@   requires testsRegistry != nil && testsRegistry.running != nil && testsRegistry.cleanup != nil && testsRegistry.running != testsRegistry.cleanup
 //@   requires held[testsRegistry.Mutex] == 0
 //@   requires testsRegistry.Mutex != testEvents.Mutex && testsRegistry.Mutex != _m && testEvents.Mutex != _m
-//@   let sp = snapPathSpec(c.snapsDir, c.filename, c.extension, tname(t), false, isTrimBathBuild, callerFile())
+//@   let sp = snapPathSpec(c.snapsDir, c.filename, c.extension, tname(t), false, isTrimBathBuild, baseCaller(3))
 //@   requires has(testsRegistry.running, sp) == has(testsRegistry.cleanup, sp)
 //@   requires has(testsRegistry.running, sp) ==> testsRegistry.running[sp] != nil && testsRegistry.cleanup[sp] != nil && testsRegistry.running[sp] != testsRegistry.cleanup[sp]
 //@   requires fsguard[sp] == _m
@@ -680,7 +687,7 @@ package snaps
 //@   requires standaloneTestsRegistry != nil && standaloneTestsRegistry.running != nil && standaloneTestsRegistry.cleanup != nil && standaloneTestsRegistry.running != standaloneTestsRegistry.cleanup
 //@   requires held[standaloneTestsRegistry.Mutex] == 0
 //@   requires standaloneTestsRegistry.Mutex != testEvents.Mutex
-//@   let gp = snapPathSpec(c.snapsDir, c.filename, c.extension, tname(t), true, isTrimBathBuild, callerFile())
+//@   let gp = snapPathSpec(c.snapsDir, c.filename, c.extension, tname(t), true, isTrimBathBuild, baseCaller(3))
 //@   let k = old(standaloneTestsRegistry.running[gp]) + 1
 //@   let sp = sprintf_d(gp, k)
 //@   requires fsguard[sp] == nil
@@ -736,7 +743,7 @@ package snaps
 //@   requires standaloneTestsRegistry != nil && standaloneTestsRegistry.running != nil && standaloneTestsRegistry.cleanup != nil && standaloneTestsRegistry.running != standaloneTestsRegistry.cleanup
 //@   requires held[standaloneTestsRegistry.Mutex] == 0
 //@   requires standaloneTestsRegistry.Mutex != testEvents.Mutex
-//@   let gp = snapPathSpec(c.snapsDir, c.filename, c.extension, tname(t), true, isTrimBathBuild, callerFile())
+//@   let gp = snapPathSpec(c.snapsDir, c.filename, c.extension, tname(t), true, isTrimBathBuild, baseCaller(3))
 //@   let k = old(standaloneTestsRegistry.running[gp]) + 1
 //@   let sp = sprintf_d(gp, k)
 //@   requires fsguard[sp] == nil
@@ -791,7 +798,7 @@ package snaps
 //@   requires testsRegistry != nil && testsRegistry.running != nil && testsRegistry.cleanup != nil && testsRegistry.running != testsRegistry.cleanup
 //@   requires held[testsRegistry.Mutex] == 0
 //@   requires testsRegistry.Mutex != testEvents.Mutex && testsRegistry.Mutex != _m && testEvents.Mutex != _m
-//@   let sp = snapPathSpec(c.snapsDir, c.filename, c.extension, tname(t), false, isTrimBathBuild, callerFile())
+//@   let sp = snapPathSpec(c.snapsDir, c.filename, c.extension, tname(t), false, isTrimBathBuild, baseCaller(3))
 //@   requires has(testsRegistry.running, sp) == has(testsRegistry.cleanup, sp)
 //@   requires has(testsRegistry.running, sp) ==> testsRegistry.running[sp] != nil && testsRegistry.cleanup[sp] != nil && testsRegistry.running[sp] != testsRegistry.cleanup[sp]
 //@   requires fsguard[sp] == _m
@@ -848,7 +855,7 @@ package snaps
 //@   requires testsRegistry != nil && testsRegistry.running != nil && testsRegistry.cleanup != nil && testsRegistry.running != testsRegistry.cleanup
 //@   requires held[testsRegistry.Mutex] == 0
 //@   requires testsRegistry.Mutex != testEvents.Mutex && testsRegistry.Mutex != _m && testEvents.Mutex != _m
-//@   let sp = snapPathSpec(c.snapsDir, c.filename, c.extension, tname(t), false, isTrimBathBuild, callerFile())
+//@   let sp = snapPathSpec(c.snapsDir, c.filename, c.extension, tname(t), false, isTrimBathBuild, baseCaller(3))
 //@   requires has(testsRegistry.running, sp) == has(testsRegistry.cleanup, sp)
 //@   requires has(testsRegistry.running, sp) ==> testsRegistry.running[sp] != nil && testsRegistry.cleanup[sp] != nil && testsRegistry.running[sp] != testsRegistry.cleanup[sp]
 //@   requires fsguard[sp] == _m
@@ -906,7 +913,7 @@ package snaps
 //@   requires testsRegistry != nil && testsRegistry.running != nil && testsRegistry.cleanup != nil && testsRegistry.running != testsRegistry.cleanup
 //@   requires held[testsRegistry.Mutex] == 0
 //@   requires testsRegistry.Mutex != testEvents.Mutex && testsRegistry.Mutex != _m && testEvents.Mutex != _m
-//@   let sp = snapPathSpec(c.snapsDir, c.filename, c.extension, tname(t), false, isTrimBathBuild, callerFile())
+//@   let sp = snapPathSpec(c.snapsDir, c.filename, c.extension, tname(t), false, isTrimBathBuild, baseCaller(3))
 //@   requires has(testsRegistry.running, sp) == has(testsRegistry.cleanup, sp)
 //@   requires has(testsRegistry.running, sp) ==> testsRegistry.running[sp] != nil && testsRegistry.cleanup[sp] != nil && testsRegistry.running[sp] != testsRegistry.cleanup[sp]
 //@   requires fsguard[sp] == _m
@@ -968,7 +975,7 @@ package snaps
 //@   requires testsRegistry != nil && testsRegistry.running != nil && testsRegistry.cleanup != nil && testsRegistry.running != testsRegistry.cleanup
 //@   requires held[testsRegistry.Mutex] == 0
 //@   requires testsRegistry.Mutex != testEvents.Mutex && testsRegistry.Mutex != _m && testEvents.Mutex != _m
-//@   let sp = snapPathSpec(c.snapsDir, c.filename, c.extension, tname(t), false, isTrimBathBuild, callerFile())
+//@   let sp = snapPathSpec(c.snapsDir, c.filename, c.extension, tname(t), false, isTrimBathBuild, baseCaller(3))
 //@   requires has(testsRegistry.running, sp) == has(testsRegistry.cleanup, sp)
 //@   requires has(testsRegistry.running, sp) ==> testsRegistry.running[sp] != nil && testsRegistry.cleanup[sp] != nil && testsRegistry.running[sp] != testsRegistry.cleanup[sp]
 //@   requires fsguard[sp] == _m
@@ -1031,7 +1038,7 @@ package snaps
 //@   requires testsRegistry != nil && testsRegistry.running != nil && testsRegistry.cleanup != nil && testsRegistry.running != testsRegistry.cleanup
 //@   requires held[testsRegistry.Mutex] == 0
 //@   requires testsRegistry.Mutex != testEvents.Mutex && testsRegistry.Mutex != _m && testEvents.Mutex != _m
-//@   let sp = snapPathSpec(c.snapsDir, c.filename, c.extension, tname(t), false, isTrimBathBuild, callerFile())
+//@   let sp = snapPathSpec(c.snapsDir, c.filename, c.extension, tname(t), false, isTrimBathBuild, baseCaller(3))
 //@   requires has(testsRegistry.running, sp) == has(testsRegistry.cleanup, sp)
 //@   requires has(testsRegistry.running, sp) ==> testsRegistry.running[sp] != nil && testsRegistry.cleanup[sp] != nil && testsRegistry.running[sp] != testsRegistry.cleanup[sp]
 //@   requires fsguard[sp] == _m
@@ -1093,7 +1100,7 @@ package snaps
 //@   requires testsRegistry != nil && testsRegistry.running != nil && testsRegistry.cleanup != nil && testsRegistry.running != testsRegistry.cleanup
 //@   requires held[testsRegistry.Mutex] == 0
 //@   requires testsRegistry.Mutex != testEvents.Mutex && testsRegistry.Mutex != _m && testEvents.Mutex != _m
-//@   let sp = snapPathSpec(c.snapsDir, c.filename, c.extension, tname(t), false, isTrimBathBuild, callerFile())
+//@   let sp = snapPathSpec(c.snapsDir, c.filename, c.extension, tname(t), false, isTrimBathBuild, baseCaller(3))
 //@   requires has(testsRegistry.running, sp) == has(testsRegistry.cleanup, sp)
 //@   requires has(testsRegistry.running, sp) ==> testsRegistry.running[sp] != nil && testsRegistry.cleanup[sp] != nil && testsRegistry.running[sp] != testsRegistry.cleanup[sp]
 //@   requires fsguard[sp] == _m
@@ -1156,7 +1163,7 @@ package snaps
 //@   requires standaloneTestsRegistry != nil && standaloneTestsRegistry.running != nil && standaloneTestsRegistry.cleanup != nil && standaloneTestsRegistry.running != standaloneTestsRegistry.cleanup
 //@   requires held[standaloneTestsRegistry.Mutex] == 0
 //@   requires standaloneTestsRegistry.Mutex != testEvents.Mutex
-//@   let gp = snapPathSpec(c.snapsDir, c.filename, c.extension, tname(t), true, isTrimBathBuild, callerFile())
+//@   let gp = snapPathSpec(c.snapsDir, c.filename, c.extension, tname(t), true, isTrimBathBuild, baseCaller(3))
 //@   let k = old(standaloneTestsRegistry.running[gp]) + 1
 //@   let sp = sprintf_d(gp, k)
 //@   requires fsguard[sp] == nil
@@ -1203,7 +1210,7 @@ package snaps
 //@   requires standaloneTestsRegistry != nil && standaloneTestsRegistry.running != nil && standaloneTestsRegistry.cleanup != nil && standaloneTestsRegistry.running != standaloneTestsRegistry.cleanup
 //@   requires held[standaloneTestsRegistry.Mutex] == 0
 //@   requires standaloneTestsRegistry.Mutex != testEvents.Mutex
-//@   let gp = snapPathSpec(c.snapsDir, c.filename, c.extension, tname(t), true, isTrimBathBuild, callerFile())
+//@   let gp = snapPathSpec(c.snapsDir, c.filename, c.extension, tname(t), true, isTrimBathBuild, baseCaller(3))
 //@   let k = old(standaloneTestsRegistry.running[gp]) + 1
 //@   let sp = sprintf_d(gp, k)
 //@   requires fsguard[sp] == nil
@@ -1251,7 +1258,7 @@ package snaps
 //@   requires standaloneTestsRegistry != nil && standaloneTestsRegistry.running != nil && standaloneTestsRegistry.cleanup != nil && standaloneTestsRegistry.running != standaloneTestsRegistry.cleanup
 //@   requires held[standaloneTestsRegistry.Mutex] == 0
 //@   requires standaloneTestsRegistry.Mutex != testEvents.Mutex
-//@   let gp = snapPathSpec(c.snapsDir, c.filename, (c.extension == "" ? ".json" : c.extension), tname(t), true, isTrimBathBuild, callerFile())
+//@   let gp = snapPathSpec(c.snapsDir, c.filename, (c.extension == "" ? ".json" : c.extension), tname(t), true, isTrimBathBuild, baseCaller(3))
 //@   let k = old(standaloneTestsRegistry.running[gp]) + 1
 //@   let sp = sprintf_d(gp, k)
 //@   requires fsguard[sp] == nil
@@ -1304,7 +1311,7 @@ package snaps
 //@   requires standaloneTestsRegistry != nil && standaloneTestsRegistry.running != nil && standaloneTestsRegistry.cleanup != nil && standaloneTestsRegistry.running != standaloneTestsRegistry.cleanup
 //@   requires held[standaloneTestsRegistry.Mutex] == 0
 //@   requires standaloneTestsRegistry.Mutex != testEvents.Mutex
-//@   let gp = snapPathSpec(c.snapsDir, c.filename, (c.extension == "" ? ".json" : c.extension), tname(t), true, isTrimBathBuild, callerFile())
+//@   let gp = snapPathSpec(c.snapsDir, c.filename, (c.extension == "" ? ".json" : c.extension), tname(t), true, isTrimBathBuild, baseCaller(3))
 //@   let k = old(standaloneTestsRegistry.running[gp]) + 1
 //@   let sp = sprintf_d(gp, k)
 //@   requires fsguard[sp] == nil
@@ -1463,9 +1470,9 @@ package snaps
 //@   ensures [content_kept] fsc == old(fsc)
 //@   ensures [report_only] !shouldUpdate ==> fsx == old(fsx) && fswrites == old(fswrites)
 //@   ensures [obsolete_sound] forall k in 0..len(obsolete): !has(registry, obsolete[k]) && !has(registeredStandaloneTests, obsolete[k])
-//@   ensures [used_sound] forall k in 0..len(used): has(registry, used[k])
+//@   ensures [used_sound] forall k in 0..len(used): has(registry, used[k]) && contains(baseOf(used[k]), ".snap")
 //@   let inv = protected && (!shouldUpdate ==> fsx == old(fsx) && fswrites == old(fswrites))
-//@       && (forall k in 0..len(obsolete): !has(registry, obsolete[k]) && !has(registeredStandaloneTests, obsolete[k])) && (forall k in 0..len(used): has(registry, used[k]))
+//@       && (forall k in 0..len(obsolete): !has(registry, obsolete[k]) && !has(registeredStandaloneTests, obsolete[k])) && (forall k in 0..len(used): has(registry, used[k]) && contains(baseOf(used[k]), ".snap"))
 //@       && (forall r0 Ref: old(alloc)[r0] ==> domheap("map[string]struct{}")[r0] == old(domheap("map[string]struct{}"))[r0] && valheap("map[string]struct{}")[r0] == old(valheap("map[string]struct{}"))[r0])
 //@       && uniqueDirs != nil && !old(alloc)[uniqueDirs] && (registry != nil ==> old(alloc)[registry]) && (registeredStandaloneTests != nil ==> old(alloc)[registeredStandaloneTests])
 //@   loop 1 invariant inv
@@ -1485,6 +1492,7 @@ package snaps
 //@   requires quiescent && count >= 1 && skippedTests != nil
 //@   requires forall p Str, id Str {registry[p][id]}: has(registry, p) && has(registry[p], id) ==> registry[p][id] >= 0
 //@   assigns fsc, fswrites, alloc, stdout
+//@   ensures [nonsnap] forall p Str {fsc[p]}: (forall k in 0..len(used): used[k] != p) ==> fsc[p] == old(fsc)[p]
 //@   ensures [noop] !update && !sort ==> fswrites == old(fswrites) && fsc == old(fsc)
 //@   ensures [only_used] forall p Str {fsc[p]}: (forall k in 0..len(used): used[k] != p) ==> fsc[p] == old(fsc)[p]
 //@   let mapsKept = forall r0 Ref: old(alloc)[r0] ==> domheap("map[string]struct{}")[r0] == old(domheap("map[string]struct{}"))[r0] && valheap("map[string]struct{}")[r0] == old(valheap("map[string]struct{}"))[r0]
@@ -1507,3 +1515,44 @@ package snaps
 //@   loop 1.1.1 invariant !update ==> (forall k in 0..len(testIDs) - 1: has(tests, testIDs[k]))
 //@   loop 1.2 invariant mapsKept && fsxKept && locals && 0 <= $idx_1 && $idx_1 < len(used) && snapPath == used[$idx_1] && f != nil && !old(alloc)[f] && fpath[f] == snapPath && f != data
 //@   loop 1.2 invariant (update || sort) && (forall p Str {fsc[p]}: (forall k in 0..len(used): used[k] != p) ==> fsc[p] == old(fsc)[p])
+
+// ---- summary (C20) -----------------------------------------------------------------------------------
+//@ specfun evLine(symbol Str, verb Str, n Int) Str = n == 0 ? "" : symbol + itoa(n) + " " + (n > 1 ? "snapshots" : "snapshot") + " " + verb + "\n"
+//@ func printEvent(w, color, symbol, verb, events)
+//@   mode str
+//@   assigns wbuf[w]
+//@   ensures events == 0 ==> wbuf[w] == old(wbuf[w])
+//@   ensures colors.NOCOLOR ==> wbuf[w] == old(wbuf[w]) + evLine(symbol, verb, events)
+//@   ensures prefixof(old(wbuf[w]), wbuf[w])
+//@
+//@ func summary$1(objects, name)
+//@   mode str
+//@   requires s != nil
+//@   assigns wbuf[s]
+//@   ensures prefixof(old(wbuf[s]), wbuf[s]) && len(wbuf[s]) > len(old(wbuf[s]))
+//@   loop 1 invariant prefixof(old(wbuf[s]), wbuf[s]) && len(wbuf[s]) > len(old(wbuf[s])) && s != nil && (forall r Ref: r != s ==> wbuf[r] == old(wbuf)[r])
+//@
+//@ func summary(obsoleteFiles, obsoleteTests, NOskippedTests, testEvents, shouldUpdate) returns (r)
+//@   mode str
+//@   assigns alloc
+//@   let nothing = len(obsoleteFiles) == 0 && len(obsoleteTests) == 0 && len(testEvents) == 0 && NOskippedTests == 0
+//@   let counters = evLine("✓ ", "passed", testEvents[passed]) + evLine("✕ ", "failed", testEvents[erred]) + evLine("✎ ", "added", testEvents[added]) + evLine("✎ ", "updated", testEvents[updated]) + evLine("⟳ ", "skipped", NOskippedTests)
+//@   ensures [silent] nothing ==> r == ""
+//@   ensures [shown] !nothing ==> r != ""
+//@   ensures [totals_exact] !nothing && colors.NOCOLOR && len(obsoleteFiles) == 0 && len(obsoleteTests) == 0 ==> r == "\nSnapshot Summary\n\n" + counters
+
+//@ specfun testCount() Int = atoiOf(flagValue("test.count"))
+//@ func Clean(m, opts)
+//@   mode ctl
+//@   requires quiescent && testCount() >= 1
+//@   requires skippedTests != nil && testEvents != nil && testsRegistry != nil && standaloneTestsRegistry != nil
+//@   requires forall p Str, id Str {testsRegistry.cleanup[p][id]}: has(testsRegistry.cleanup, p) && has(testsRegistry.cleanup[p], id) ==> testsRegistry.cleanup[p][id] >= 0
+//@   requires forall p Str {standaloneTestsRegistry.cleanup[p]}: has(standaloneTestsRegistry.cleanup, p) ==> standaloneTestsRegistry.cleanup[p] >= 0
+//@   assigns fsx, fsc, fswrites, stdout, alloc
+//@   let mayClean = !isCI && (updateVAR == "true" || updateVAR == "clean")
+//@   let maySort = !isCI && len(opts) != 0 && opts[0].Sort
+//@   ensures [ci_readonly] isCI ==> fswrites == old(fswrites) && fsx == old(fsx) && fsc == old(fsc)
+//@   ensures [report_only] !mayClean ==> fsx == old(fsx)
+//@   ensures [no_sort_no_clean] !mayClean && !maySort ==> fswrites == old(fswrites) && fsc == old(fsc) && fsx == old(fsx)
+//@   ensures [registered_files_kept] forall p Str {fsx[p]}: has(testsRegistry.cleanup, p) ==> fsx[p] == old(fsx)[p]
+//@   ensures [non_snap_files_kept] forall p Str {fsx[p]}: !contains(baseOf(p), ".snap") ==> fsx[p] == old(fsx)[p] && fsc[p] == old(fsc)[p]
